@@ -90,10 +90,21 @@ def at_scale_case(ctx, g, rng):
     api, S = ctx.api, probe.S
     n = rng.choice([150, 400]) if ctx.tier == "thorough" else 90
     recs = gen.large_records(rng, n)
+    # one record lists dozens or hundreds of URI-prefix synonyms (every provider of a registry entry) in the order its
+    # author wrote them; remapping its canonical URI prefix, and rewiring its prefix, onto one of its own synonyms makes
+    # that synonym canonical (seed C12-W: above a number of synonyms the membership test bisects an unsorted list)
+    k = rng.choice([31, 32, 33, 40, 64, 120, 300])
+    provs = [f"http://prov.org/{i}/" for i in range(k)]
+    if rng.random() < 0.5:
+        rng.shuffle(provs)
+    recs.append(spec.Rec("mm", "http://mm.org/", ("MM",), tuple(provs), None))
+    S.counters[f"wl:at-scale:many-uri-synonyms:k{k}"] += 1
     with probe.monitor_mode():
         c = api.Converter([gen.mk_record(api, r) for r in recs])
-    some = rng.sample(recs, k=30)
-    m1, m2 = {}, {}
+    some = rng.sample(recs[:-1], k=30)
+    m1, m2 = {"http://mm.org/": rng.choice(provs)}, {rng.choice(["mm", "MM"]): rng.choice(provs)}
+    if rng.random() < 0.3:
+        m1 = {rng.choice(provs): rng.choice(provs)}  # from one of its synonyms to another
     for i, r in enumerate(some):
         if i % 4 == 0:
             m1[r.uri_prefix] = f"http://moved/{i}/"
